@@ -11,6 +11,7 @@ The parsing/printing helpers are reused by the C19 driver.
   encode <gen> <kvs> <emits>  => x<encoded>
   nilset <gen> <nil|zero|new|empty|filtered> <the same, other operand> x<key> <idx>
          => <Len> <Value ok> <HasValue> <Get ok> <ToSlice> <Iter count> <l.Equals(o)> <o.Equals(l)> <o.Equivalent() found in map{l.Equivalent()}> x<Encoded>
+  nilfilter <gen> <nil|zero|new|empty> <filter> => panic | <kept> <dropped>      (Set.Filter through a *Set)
   iter   <gen> <kvs> <k>        => <attributes visited by for it.Next()> <IndexedAttribute indices are 0,1,2,… and Label = Attribute> <it.Len()>
                                    <Attribute() past the end> <Next() past the end> <ToSlice() of a second iterator after k Next calls> <its Next() afterwards>
   seq    <gen> <op> | <op> | …  => <results of op 1> | <results of op 2> | … ;; <the same results read again at the end>
@@ -302,7 +303,9 @@ def stepLine (_ : Unit) (toks : List String) : Unit × Option Verdict :=
     -- the modelled part of Value.Emit must agree with what the real Emit returned
     let emitsOK := tbl.all (fun p => match emitKnown p.1 with | some e => e == p.2 | none => true)
     let m := encode emit s
-    let spec := o == Spec.encodeRef emit (Spec.canon kvs)
+    -- the oracle renders every value whose Emit is modelled (all but the float types) itself
+    let emitSpec : Value → Bytes := fun v => (emitKnown v).getD (emit v)
+    let spec := o == Spec.encodeRef emitSpec (Spec.canon kvs) && emitsOK
     let esc := s.any (fun kv => escape kv.key != kv.key || (match kv.val with | .str x => escape x != x | _ => false))
     let br := tags [(s.isEmpty, "empty"), (s.length == 1, "one"), (s.length > 1, "many"), (esc, "escaped")]
     pure { agree := m == o && emitsOK, spec := okFail spec, nontrivial := !s.isEmpty, branches := br,
@@ -331,6 +334,22 @@ def stepLine (_ : Unit) (toks : List String) : Unit × Option Verdict :=
     let spec := olen == 0 && !okv && !ohas && !okg && osl.isEmpty && oit == 0 && oeq && oeqr && omap && oenc.isEmpty
     pure { agree, spec := okFail spec, nontrivial := which != oS, branches := tags [(true, which), (true, "vs-" ++ oS)],
            model := s!"{setLen l} 0 0 0 - {setLen l} 1 1 1 x" }
+  | "nilfilter" :: _ :: which :: fS :: [], obsToks => do
+    let f ← parseFilter fS
+    let l ← (if which = "nil" then some (none : SetP) else if which = "zero" then some (some none)
+      else if which = "new" || which = "empty" then some (some (computeDistinct [])) else none)
+    let m := setFilterP l f
+    let o ← (match obsToks with
+      | ["panic"] => some (none : Option (List KV × List KV))
+      | [kS, dS] => do
+        let k ← parseKVs kS
+        let d ← parseKVs dS
+        pure (some (k, d))
+      | _ => none)
+    -- a nil *Set: the code dereferences nil (observation, outside the property's quantifier); otherwise: empty in, empty out
+    let spec := if which = "nil" then "na" else okFail (o == some ([], []))
+    pure { agree := m == o, spec, nontrivial := which != "nil", branches := tags [(true, which), (o.isNone, "panic")],
+           model := match m with | none => "panic" | some r => s!"{showKVs r.1} {showKVs r.2}" }
   | ["iter", _, kvsS, kS], [gotS, idxS, lenS, afterS, extraS, slS, nxtS] => do
     let kvs ← parseKVs kvsS
     let k ← kS.toNat?
